@@ -16,6 +16,8 @@ package main
 // Only non-empty child fields are printed, in struct declaration order.
 
 import (
+	"os"
+	"path/filepath"
 	"reflect"
 	"regexp"
 	"sort"
@@ -27,7 +29,7 @@ import (
 
 var c03StatementType = reflect.TypeOf(&yang.Statement{})
 
-var c03PosRe = regexp.MustCompile(`^t\.yang:(\d+):(\d+):`)
+var c03PosRe = regexp.MustCompile(`^[^:]*\.yang:(\d+):(\d+):`)
 
 func c03Pos(s *yang.Statement) (int, int) {
 	p := strings.Split(s.Location(), ":")
@@ -110,6 +112,10 @@ func c03Dump(b *strings.Builder, v reflect.Value, encl interface{}, ids map[*yan
 	for _, f := range fds {
 		b.WriteString(f.key + "=")
 		for _, k := range f.kids {
+			if k.Kind() == reflect.Ptr && k.IsNil() {
+				b.WriteString("NIL")
+				continue
+			}
 			c03Dump(b, k, v.Interface(), ids)
 		}
 		b.WriteString(";")
@@ -117,56 +123,107 @@ func c03Dump(b *strings.Builder, v reflect.Value, encl interface{}, ids map[*yan
 	b.WriteString("}[" + strings.Join(exts, ",") + "]")
 }
 
+func c03Err(err error) string {
+	// position prefix of the error, if it has one
+	if m := c03PosRe.FindStringSubmatch(err.Error()); m != nil {
+		return "err " + m[1] + ":" + m[2]
+	}
+	return "err nopos"
+}
+
+// c03DumpSet prints every module/submodule filed in ms, in source order.
+func c03DumpSet(ms *yang.Modules) string {
+	seen := map[*yang.Module]bool{}
+	var mods []*yang.Module
+	for _, m := range []map[string]*yang.Module{ms.Modules, ms.SubModules} {
+		for _, v := range m {
+			if v != nil && !seen[v] {
+				seen[v] = true
+				mods = append(mods, v)
+			}
+		}
+	}
+	for _, m := range mods {
+		if m.Source == nil {
+			return "module-without-statement"
+		}
+	}
+	sort.Slice(mods, func(i, j int) bool {
+		li, ci := c03Pos(mods[i].Source)
+		lj, cj := c03Pos(mods[j].Source)
+		return li < lj || (li == lj && ci < cj)
+	})
+	ids := map[*yang.Statement]int{}
+	ctr := 0
+	var number func(s *yang.Statement)
+	number = func(s *yang.Statement) {
+		ids[s] = ctr
+		ctr++
+		for _, c := range s.SubStatements() {
+			number(c)
+		}
+	}
+	for _, m := range mods {
+		number(m.Source)
+	}
+	var b strings.Builder
+	b.WriteString("ok")
+	for _, m := range mods {
+		b.WriteString(" ")
+		c03Dump(&b, reflect.ValueOf(m), nil, ids)
+	}
+	return b.String()
+}
+
 func init() {
 	handlers["ast"] = func(t []string) string {
 		text := string(unhex(t[0]))
 		ms := yang.NewModules()
 		if err := ms.Parse(text, "t.yang"); err != nil {
-			// position prefix of the error, if it has one
-			if m := c03PosRe.FindStringSubmatch(err.Error()); m != nil {
-				return "err " + m[1] + ":" + m[2]
+			return c03Err(err)
+		}
+		return c03DumpSet(ms)
+	}
+
+	// astfile <hex text> <hex corrected text | -> [tree tokens for the model side]
+	// The same through files and Modules.Read, on ONE module set:
+	//   step 1  Read(dir/c03case.yang)            the text
+	//   step 2  Read(dir/c03case.yang)            again
+	//   step 3  AddPath(dir); Read("c03case")     by module name through the search path
+	//   step 4  (only with a corrected text) the file is rewritten, Read(dir/c03case.yang) once more
+	// Each step prints "err L:C|nopos" or "ok" + the dump of everything filed in the set; steps are
+	// separated by " | ".  A Read that returns no error thus always shows what it claims to have built.
+	handlers["astfile"] = func(t []string) string {
+		text := unhex(t[0])
+		var fixed []byte
+		if len(t) > 1 && t[1] != "-" {
+			fixed = unhex(t[1])
+		}
+		dir, err := os.MkdirTemp("", "c03f")
+		if err != nil {
+			return "tmpdir-failed"
+		}
+		defer os.RemoveAll(dir)
+		path := filepath.Join(dir, "c03case.yang")
+		if err := os.WriteFile(path, text, 0o644); err != nil {
+			return "write-failed"
+		}
+		ms := yang.NewModules()
+		step := func(name string) string {
+			if err := ms.Read(name); err != nil {
+				return c03Err(err)
 			}
-			return "err nopos"
+			return c03DumpSet(ms)
 		}
-		seen := map[*yang.Module]bool{}
-		var mods []*yang.Module
-		for _, m := range []map[string]*yang.Module{ms.Modules, ms.SubModules} {
-			for _, v := range m {
-				if v != nil && !seen[v] {
-					seen[v] = true
-					mods = append(mods, v)
-				}
+		out := []string{step(path), step(path)}
+		ms.AddPath(dir) // (a rejected Read leaves the search path as it was)
+		out = append(out, step("c03case"))
+		if fixed != nil {
+			if err := os.WriteFile(path, fixed, 0o644); err != nil {
+				return "write-failed"
 			}
+			out = append(out, step(path))
 		}
-		for _, m := range mods {
-			if m.Source == nil {
-				return "module-without-statement"
-			}
-		}
-		sort.Slice(mods, func(i, j int) bool {
-			li, ci := c03Pos(mods[i].Source)
-			lj, cj := c03Pos(mods[j].Source)
-			return li < lj || (li == lj && ci < cj)
-		})
-		ids := map[*yang.Statement]int{}
-		ctr := 0
-		var number func(s *yang.Statement)
-		number = func(s *yang.Statement) {
-			ids[s] = ctr
-			ctr++
-			for _, c := range s.SubStatements() {
-				number(c)
-			}
-		}
-		for _, m := range mods {
-			number(m.Source)
-		}
-		var b strings.Builder
-		b.WriteString("ok")
-		for _, m := range mods {
-			b.WriteString(" ")
-			c03Dump(&b, reflect.ValueOf(m), nil, ids)
-		}
-		return b.String()
+		return strings.Join(out, " | ")
 	}
 }
